@@ -14,7 +14,7 @@ import (
 
 func init() {
 	core.Register(&core.Property{
-		ID: "C12",
+		ID:   "C12",
 		Rule: "all 14 band names x repeater x dwell-time = 56 configurations (plus the 10 deprecated aliases), each swept completely: every uplink channel index and frequency (default channels and three added custom channels where supported) through GetRX1ChannelIndexForUplinkChannelIndex / GetRX1FrequencyForUplinkFrequency / GetDownlinkChannel; every (uplink DR -2..16) x (RX1 offset -2..9) through GetRX1DataRateIndex under recover(); RX2 defaults; ping-slot frequency for seeded (DevAddr, beaconTime >= 0) pairs incl. wrap-around boundaries (quick 4k, thorough 1M per hopping region). Oracles from harness/spec/regional.go: region channel rule (same / mod 8 / mod 48), RX1 data-rate formula where the region defines one, result must be a defined downlink data-rate (hook snapshot), monotone over the positive offsets with steps of at most one defined downlink DR, invalid arguments -> error never panic. Distinct = (band config, uplink DR, offset) cells and (band, channel) pairs.",
 		Assumptions: []string{
 			"Regional Parameters rules as transcribed in harness/spec/regional.go; LR-FHSS uplink rows are checked structurally only (result is a downlink DR, monotone), not against pinned values",
